@@ -2,9 +2,14 @@ import BfeVerif.Common.Proto
 import BfeVerif.C31.Model
 /-!
   C31 driver.
-  op     = `M=<maxSize>,A=<allowed>,S=<maxStrLen>;<chunk hex>,<chunk hex>,…`
-  result = `W:<outcome>#S:<outcome>` : the whole block in one Write / the chunks one Write each, then Close.
-           outcome = `F<name:value:s,…>|Enone|T<n>,<size>,<max>,<hash>`  or  `F<…>|E<err>`  or  `PANIC`
+  op     = `M=<maxSize>,A=<allowed>,S=<maxStrLen>[,E=<-|q|d<k>|x<k>>];<chunk hex>,<chunk hex>,…`
+           E = behaviour of the emit callback: `-` plain, `q` SetEmitEnabled(false) before the first Write,
+           `d<k>` SetEmitEnabled(false) inside its k-th call (field dropped), `x<k>` returns an error at its k-th call
+  result = `W:<outcome>#S:<outcome>#B:<outcome>#D:<F…|E…>` : the whole block in one Write / the chunks one Write each /
+           one octet per Write, each followed by Close; D = DecodeFull (plain callback only, else `-`).
+           outcome = `F<name:value:s,…>|Enone|T<n>,<size>,<max>,<hash>|N<n₁.n₂.…>`  or  `F<…>|E<err>|N<…>`  or  `PANIC`
+           (N = the counts returned by the Write calls; input buffers are overwritten after each Write and the
+           fields are rendered after Close)
 -/
 namespace BfeVerif.C31
 open BfeVerif.Proto BfeVerif.C30
@@ -34,64 +39,140 @@ def tabHash (t : DynTab) : Nat :=
 
 def renderTab (t : DynTab) : String := s!"{t.ents.length},{t.size},{t.maxSize},{tabHash t}"
 
-def renderOutcome (o : Outcome) : String :=
-  if o.err = some .crash then "PANIC"
-  else if o.err.isSome then "F" ++ renderFields o.fields ++ "|E" ++ renderErr o.err   -- the connection is dead: table not observed
-  else "F" ++ renderFields o.fields ++ "|E" ++ renderErr o.err ++ "|T" ++ renderTab o.tab
+def renderEErr : Option EErr → String
+  | none => "none"
+  | some (.dec e) => renderErr (some e)
+  | some .emit => "err:emit"
+
+def renderNs (ns : List Nat) : String := if ns.isEmpty then "-" else ".".intercalate (ns.map toString)
+
+/-- outcome without the N part -/
+def renderCore (o : OutcomeE) : String :=
+  if o.err.isSome then "F" ++ renderFields o.fields ++ "|E" ++ renderEErr o.err   -- the connection is dead: table not observed
+  else "F" ++ renderFields o.fields ++ "|Enone|T" ++ renderTab o.tab
+
+def renderOutcomeE (o : OutcomeE) : String :=
+  if o.err = some (.dec .crash) then "PANIC" else renderCore o ++ "|N" ++ renderNs o.ns
 
 def rerrName : RErr → String
   | .truncated => "truncated" | .varint => "varint" | .index => "index" | .size => "size" | .strlen => "strlen"
   | .huffEos => "huff-eos" | .huffPadLong => "huff-pad-long" | .huffPadBits => "huff-pad-bits"
 
-def parseCfg (s : String) : Option Cfg :=
+def parseMode (s : String) : Option EMode :=
+  if s == "-" then some .none
+  else if s == "q" then some .quiet
+  else if s.startsWith "d" then ((s.drop 1).toString.toNat?).map .disableAt
+  else if s.startsWith "x" then ((s.drop 1).toString.toNat?).map .failAt
+  else none
+
+def parseCfg (s : String) : Option (Cfg × EMode) :=
   match (s.splitOn ",").map (fun kv => kv.splitOn "=") with
   | [["M", m], ["A", a], ["S", st]] =>
     match m.toNat?, a.toNat?, st.toNat? with
-    | some m, some a, some st => some { maxSize := m, allowed := a, maxStr := st }
+    | some m, some a, some st => some ({ maxSize := m, allowed := a, maxStr := st }, .none)
     | _, _, _ => none
+  | [["M", m], ["A", a], ["S", st], ["E", e]] =>
+    match m.toNat?, a.toNat?, st.toNat?, parseMode e with
+    | some m, some a, some st, some e => some ({ maxSize := m, allowed := a, maxStr := st }, e)
+    | _, _, _, _ => none
   | _ => none
 
-/-- spec oracle on the implementation's two outcomes -/
-def judge (ref : Except RErr (List HF × DynTab)) (w s : String) : String :=
+/-- core (without `|N…`) and the N list of an implementation outcome -/
+def splitN (o : String) : String × List String :=
+  match o.splitOn "|N" with
+  | [c, n] => (c, if n == "-" then [] else n.splitOn ".")
+  | _ => (o, [])
+
+def hasErr (core : String) : Bool := !((core.splitOn "|E").getD 1 "").startsWith "none"
+
+/-- what the property demands of the one-Write delivery, judged on the implementation's output -/
+def judgeWhole (mode : EMode) (ref : Except RErr (List HF × DynTab)) (strictViol : Bool) (w : String) : String :=
   let refName := match ref with | .ok _ => "valid" | .error e => rerrName e
   let isHuff := match ref with | .error e => e.isHuff | .ok _ => false
   if w == "PANIC" then (if isHuff then "FAIL:panic-huffman" else "FAIL:panic-" ++ refName)
   else
-    let wErr := !((w.splitOn "|E").getD 1 "").startsWith "none"
-    let first :=
-      match ref with
-      | .ok (fs, t) =>
-        if w == "F" ++ renderFields fs ++ "|Enone|T" ++ renderTab t then "ok"
+    let wErr := hasErr w
+    match ref with
+    | .error e =>
+      if wErr then "ok"
+      else if e.isHuff ∧ mode != .none then "ok"   -- strings of non-indexed fields are skipped while emission is off
+      else "FAIL:accepted-" ++ rerrName e
+    | .ok (fs, t) =>
+      match mode with
+      | .none =>
+        if strictViol then (if wErr then "ok" else "FAIL:accepted-size-update-after-field")
+        else if w == "F" ++ renderFields fs ++ "|Enone|T" ++ renderTab t then "ok"
         else if wErr then "FAIL:spurious-error" else "FAIL:fields-differ"
-      | .error e => if wErr then "ok" else "FAIL:accepted-" ++ rerrName e
-    if first != "ok" then first
-    else if s == "PANIC" then "FAIL:panic-split-" ++ refName
-    else if s != w then "FAIL:split-differs"
+      | .quiet =>
+        if w == "F-|Enone|T" ++ renderTab t then "ok" else if wErr then "FAIL:spurious-error" else "FAIL:quiet-differs"
+      | .disableAt k =>
+        if w == "F" ++ renderFields (fs.take k) ++ "|Enone|T" ++ renderTab t then "ok"
+        else if wErr then "FAIL:spurious-error" else "FAIL:disable-differs"
+      | .failAt k =>
+        if fs.length > k then
+          (if w == "F" ++ renderFields (fs.take k) ++ "|Eerr:emit" then "ok" else "FAIL:emit-error-lost")
+        else if w == "F" ++ renderFields fs ++ "|Enone|T" ++ renderTab t then "ok"
+        else if wErr then "FAIL:spurious-error" else "FAIL:fields-differ"
+
+/-- the counts returned by Write: the chunk length, except 0 for an empty chunk and for the errNeedMore guard -/
+def judgeNs (chunks : List (List Nat)) (core : String) (ns : List String) : Bool :=
+  let exp := chunks.map fun c => toString c.length
+  let k := ns.length
+  if hasErr core ∧ !core.endsWith "err:truncated" then
+    k ≥ 1 ∧ k ≤ exp.length ∧ ns.take (k - 1) == exp.take (k - 1) ∧
+      (ns.getD (k - 1) "?" == exp.getD (k - 1) "!" ∨ (ns.getD (k - 1) "?" == "0" ∧ core.endsWith "err:strlen"))
+  else ns == exp
+
+def judgeDelivery (cfg : Cfg) (tag : String) (chunks : List (List Nat)) (wcore : String) (o : String) : String :=
+  if o == "PANIC" then "FAIL:panic-" ++ tag
+  else
+    let (core, ns) := splitN o
+    if core != wcore then
+      (if cfg.maxStr ≠ 0 ∧ core.endsWith "err:strlen" ∧ ns.getLast? == some "0" ∧ !hasErr wcore then "FAIL:split-strlen-guard"
+       else "FAIL:split-differs")
+    else if !judgeNs chunks core ns then "FAIL:write-count"
     else "ok"
+
+def firstFail (l : List String) : String := (l.find? (· != "ok")).getD "ok"
 
 def run (op impl : String) : Ans :=
   match op.splitOn ";" with
   | [c, ch] =>
     match parseCfg c, (ch.splitOn ",").map unhexN with
-    | some cfg, chunks =>
+    | some (cfg, mode), chunks =>
       if !chunks.all Option.isSome then { model := "bad-op", verdict := "skip" } else
       let chunks := chunks.filterMap id
       let whole := chunks.foldl (· ++ ·) []
-      let mw := decodeChunks T cfg [whole]
-      let ms := decodeChunks T cfg chunks
-      let m := "W:" ++ renderOutcome mw ++ "#S:" ++ renderOutcome ms
+      let bytewise := whole.map fun b => [b]
+      let mw := decodeChunksE T cfg mode [whole]
+      let ms := decodeChunksE T cfg mode chunks
+      let mb := decodeChunksE T cfg mode bytewise
+      let md := if mode == .none then
+          "F" ++ renderFields (if mw.err.isSome then [] else mw.fields) ++ "|E" ++ renderEErr mw.err else "-"
+      let m := "W:" ++ renderOutcomeE mw ++ "#S:" ++ renderOutcomeE ms ++ "#B:" ++ renderOutcomeE mb ++ "#D:" ++ md
       let ref := rfcDecode T cfg whole
-      let (w, s) := match impl.splitOn "#S:" with
-        | [w, s] => ((w.drop 2).toString, s)
-        | _ => ("?", "?")
+      let strictViol := rfcUpdateAfterField T cfg whole
+      let parts := impl.splitOn "#"
+      let get := fun (pre : String) => ((parts.find? (·.startsWith pre)).map fun x => (x.drop pre.length).toString).getD "?"
+      let (wcore, wns) := splitN (get "W:")
+      let v1 := judgeWhole mode ref strictViol (if get "W:" == "PANIC" then "PANIC" else wcore)
+      let v2 := if get "W:" == "PANIC" then "ok" else if judgeNs [whole] wcore wns then "ok" else "FAIL:write-count"
+      let v3 := judgeDelivery cfg "split" chunks wcore (get "S:")
+      let v4 := judgeDelivery cfg "bytewise" bytewise wcore (get "B:")
+      let v5 := if mode != .none then "ok"
+        else
+          let d := get "D:"
+          let expD := if hasErr wcore then "F-|E" ++ ((wcore.splitOn "|E").getD 1 "") else (wcore.splitOn "|T").getD 0 ""
+          if d == expD then "ok" else "FAIL:decodefull-differs"
       let refTag := match ref with | .ok _ => "r-ok" | .error e => "r-" ++ rerrName e
-      let hasHuff := whole.length > 0  -- refined below by the outcome tags
       let nfields := match ref with | .ok (fs, _) => fs.length | .error _ => mw.fields.length
-      { model := m, verdict := judge ref w s,
+      { model := m, verdict := firstFail [v1, v2, v3, v4, v5],
         tags := [refTag] ++ (if chunks.length > 1 then ["split"] else []) ++
           (if cfg.maxStr ≠ 0 then ["maxstr"] else []) ++
+          (match mode with | .none => [] | .quiet => ["emit-q"] | .disableAt _ => ["emit-d"] | .failAt _ => ["emit-x"]) ++
+          (if strictViol then ["upd-after-field"] else []) ++
           (if mw.tab.ents.length > 0 then ["dyn"] else []) ++
-          (if hasHuff ∧ nfields ≥ 1 then ["nt"] else []) }
+          (if nfields ≥ 1 then ["nt"] else []) }
     | _, _ => { model := "bad-op", verdict := "skip" }
   | _ => { model := "bad-op", verdict := "skip" }
 
